@@ -728,8 +728,8 @@ func c07Judge(ss *servedSet, f *glf.Filter, start, limit uint64, blocks []eth.Bl
 		// a block it does not name
 		for n, hs := range ss.itemHashes {
 			sb := ss.blocks[n]
-			if sb == nil || !inRange(n) {
-				continue
+			if sb == nil || !inRange(n) || len(fmt.Sprint(sb["hash"])) != 66 {
+				continue // (a block served with something that is not a 32-byte hash has no identity to compare with)
 			}
 			all := len(hs) > 0
 			for _, h := range hs {
